@@ -37,7 +37,11 @@ type edge struct {
 }
 
 func (e edge) key() string {
-	return fmt.Sprintf("%s/%s/walc=%v/%s/%s", e.Mode, e.PS, e.WalC, e.Role, e.Op)
+	role := e.Role
+	if role == "exholder" && inPath(e.Path, "releaselost") {
+		role = "exholder(release-answer-lost)"
+	}
+	return fmt.Sprintf("%s/%s/walc=%v/%s/%s", e.Mode, e.PS, e.WalC, role, e.Op)
 }
 
 type facts struct {
@@ -408,6 +412,21 @@ func runEdge(rep *core.Report, e edge, l sim.Layout) {
 			if !vdb.Writeable() {
 				core.Infra("halt lock holder is not writable")
 			}
+			if inPath(e.Path, "releaselost") {
+				// the holder gives the lock back; the primary executes the release, the answer is lost
+				n2.Client.LoseReleaseAnswer.Store(true)
+				rctx, rcancel := context.WithTimeout(context.Background(), 10*time.Second)
+				_ = vdb.ReleaseRemoteHaltLock(rctx, hl.ID)
+				rcancel()
+				if n1.Store.DB("db").InWriteTx() {
+					core.Infra("the primary did not execute the release")
+				}
+				if vdb.Writeable() {
+					violate(rep, "C07.authority-ends-with-halt-lock", "former-holder-still-writable/release-answer-lost", map[string]any{
+						"remote_halt_lock": vdb.RemoteHaltLock(), "position": vdb.Pos().String(), "what": "the primary has released the halt lock (the answer to the holder's release was lost); the former holder still counts itself writable"}, e, l)
+				}
+				goto released
+			}
 			n1.Store.DB("db").ReleaseHaltLock(context.Background(), hl.ID)
 			if e.Mode == "wal" {
 				err = commitW(pg, sim.Plan{Kind: "w", Ns: 2, M: []int{1}, Out: "commit", V: 8, Wal: true}, 6)
@@ -425,6 +444,7 @@ func runEdge(rep *core.Report, e edge, l sim.Layout) {
 					"remote_halt_lock": vdb.RemoteHaltLock(), "position": vdb.Pos().String()}, e, l)
 				return
 			}
+		released:
 		}
 	} else {
 		// advance the open transaction to the protocol state, then withdraw authority
@@ -606,3 +626,13 @@ func firstErr(fs ...func() error) error {
 	}
 	return nil
 }
+
+func inPath(p []string, a string) bool {
+	for _, x := range p {
+		if x == a {
+			return true
+		}
+	}
+	return false
+}
+
